@@ -29,19 +29,23 @@ Names == {"absent", "present", "short", "crlf",
           "emptyfirst"}        \* malformed: the names files start with an empty line
 Outs == {"ok", "blocked",
          "full"}               \* the result path accepts open() but fails on write/close (device full)
+\* how the problem is named on the command line: "m" (as AMPL does), or a stub with dots in the file name and in a
+\* directory name ("run.2/m.v2"): the result still goes to <stub>.sol
+Stubs == {"plain", "dotted"}
 NewValues == {"infeas_nested", "ok_noobj", "ok_obj2", "solcount", "optfile_self", "optfile_missing", "emptyfirst", "full", "solstub", "warn2",
-              "ok_quad", "wantsol7", "print", "ok_powce", "bad_powvar"}
+              "ok_quad", "wantsol7", "print", "ok_powce", "bad_powvar", "dotted"}
 Scripted == 0                  \* the result code the scripted solver reports
 NAlt == 3                      \* further solutions the scripted solver reports in a "solstub" scenario
 \* the scenario space: the complete product of the round-1 values, plus every scenario that uses
 \* exactly one of the values added later (keeps the run count linear in the additions)
-NewCount(s) == Cardinality({f \in {"model", "opt", "mode", "names", "out"} : s[f] \in NewValues})
+NewCount(s) == Cardinality({f \in {"model", "opt", "mode", "names", "out", "stub"} : s[f] \in NewValues})
 \* ... plus the pairs of later values that touch the same mechanism (solution counting x objectives)
 Paired(s) == \/ s.model \in {"ok_noobj", "ok_obj2"} /\ s.opt \in {"solcount", "solstub"} /\ s.names \in {"absent", "present"} /\ s.out = "ok"
              \* ... and the printed tables x the models that have no objective / no linear row / fail late
              \/ s.model \in {"ok_quad", "ok_noobj", "infeas_nested"} /\ s.mode \in {"wantsol7", "print"} /\ s.opt \in {"none", "valid"}
                 /\ s.names \in {"absent", "present"} /\ s.out = "ok"
-Scenarios == {s \in [model : Models, opt : Opts, mode : Modes, names : Names, out : Outs] : NewCount(s) <= 1 \/ Paired(s)}
+Scenarios == {s \in [model : Models, opt : Opts, mode : Modes, names : Names, out : Outs, stub : Stubs] :
+                (NewCount(s) <= 1 \/ (Paired(s) /\ s.stub = "plain"))}
 
 HeaderReadable(s) == s.model \notin {"trunc_header", "empty", "missing"}
 BodyBad(s) == s.model \in {"trunc_body", "bad_opcode", "bad_index"}
